@@ -859,6 +859,13 @@ def evaluate(case, native):
                 if native['original'][key] != want0[key]:
                     return True, f'after modifying a deep copy the original tour has {key} = {native["original"][key]}, expected {want0[key]}'
         return False, 'tour agrees with the reference'
+    if kind == 'group_state':
+        grp = case['group']
+        must_reject = grp is not None and any(grp in r['groups'] for r in case['routes'][1:])
+        if native['rejected'] != must_reject:
+            return True, (f'a job of group {grp} offered to route 0 is {"rejected" if native["rejected"] else "accepted"} after the solution-level refresh while the other routes serve '
+                          f'{[r["groups"] for r in case["routes"][1:]]} (stale flags before the refresh: {native["stale_before"]})')
+        return False, 'the group rule agrees with the tours'
     if kind == 'statistic_sum':
         for k_ in ('cost', 'distance', 'duration', 'driving', 'serving', 'waiting', 'break_time', 'commuting', 'parking'):
             want = case['a'][k_] + case['b'][k_]
